@@ -3,6 +3,7 @@ CONSTANTS
   Orders <- OrdersAll
   Dts <- DtsS
   Targets <- TargS
+  TsTargets <- TargS
   MaxTs = 3
   PublicQueue = FALSE
   LeftRenormSite = 0
